@@ -5,11 +5,14 @@ balances, the bar's indices and prices, every position counted once, up to the 1
 Oracle: exact `Fraction` valuation of the dumped `_supplies` / `_borrows` against the figure the implementation
 reports after every step of random operation sequences (reads warm the caches, writes and bar changes must invalidate
 them): |net_value − (Σ supplies − Σ debts)| ≤ 1e-4, each total within 0.5e-4, collateral total likewise, counts exact.
-Also through `Broker.get_account_status`: account net value = wallet value + the market's reported net value.
+Also through `Broker.get_account_status`: account net value = wallet value + the market's reported net value, with the account quoted
+in the market's quote token (USD) AND in another one (a stable coin Q with 1 USD = u Q, u != 1: 0.97, 1.03, 2000, … or 1/feed(Q) when
+the market prices Q itself): every holding valued at the account's price of its token, the market's figure converted by prices[USD].
 Correspondence: `get_market_balance` on the model from the same raw state (every field, exactly).
 """
 from __future__ import annotations
 
+import random
 from decimal import Decimal as D
 from fractions import Fraction as F
 
@@ -22,10 +25,13 @@ PROPERTY = "C01"
 LEAN_MODULES = ["Proofs.C01.Aave"]
 DRIVERS = ["driver_aave"]
 RULE = ("[aave] random portfolios reached by operation sequences over 2-4 tokens and 1-6 bars (prices over 9 decades, 27-digit indices), "
-        "valuation checked after every step; bucket = (last operation, outcome, #supplies, #debts, caches warm/cold)")
+        "valuation checked after every step; bucket = (last operation, outcome, #supplies, #debts, caches warm/cold); the account is valued after every step "
+        "both quoted in USD (aave:account:same-quote) and in a stable coin with 1 USD = u of it (aave:account:other-quote:held-token|foreign-token:u<1|u>1|u=1)")
 TRUSTED = ["[aave] the 1e-4 bound is proved for exact arithmetic; CPython's 35-digit rounding of the two totals is below 1e-30 relative and is "
            "covered by a 1e-28 slack in the oracle"]
-ASSUMPTIONS = ["[aave] totals stay below 1e31 (quantize(0.0001) raises InvalidOperation beyond 35 digits)"]
+ASSUMPTIONS = ["[aave] totals stay below 1e31 (quantize(0.0001) raises InvalidOperation beyond 35 digits)",
+               "[aave] the price row handed to the market is in the market's quote token (USD); an account quoted in Q sees the prices feed(t)·P(USD) "
+               "(the Actuator hands the same row to both and forces P(USD) = 1: there the two units coincide by construction)"]
 
 HALF = F(1, 2 * 10 ** 4)
 SLACK = F(1, 10 ** 28)
@@ -39,7 +45,7 @@ def raw_totals(state, env):
     return sup, col, bor
 
 
-def check_balance(ctx: Ctx, m, b, env, state, case, what):
+def check_balance(ctx: Ctx, m, b, env, state, case, what, acct_quote=None):
     c = A.clone_market(m, True)
     try:
         bal = c.get_market_balance()
@@ -66,13 +72,79 @@ def check_balance(ctx: Ctx, m, b, env, state, case, what):
         acct = b.get_account_status(prices)
         wallet = sum((F(a.balance) * F(env["price"][k.name]) for k, a in b._assets.items() if k.name in env["price"]), F(0))
         if all(k.name in env["price"] for k, _ in b._assets.items()):
+            ctx.case("aave:account:same-quote")
             if abs(F(acct.net_value) - (wallet + F(bal.net_value))) > SLACK * (abs(wallet) + abs(F(bal.net_value)) + 1):
                 ctx.violate("aave.account-net-value", f"{what}: account net value {acct.net_value} vs wallet {float(wallet):.10g} + market {bal.net_value}", case)
     except Exception as e:  # noqa: BLE001
         ctx.count(f"aave_account_status_raised:{type(e).__name__}")
+    if acct_quote is not None:
+        check_other_quote(ctx, m, b, env, state, bal, case, what, acct_quote)
 
 
-def run_sequence(ctx: Ctx, rng, nsteps, reqs, meta, exact_env):
+# ---------------------------------------------------------------------------------------------------------------------------------------
+# The unit of the market's value.  `AaveV3Market.quote_token` is USD (broker/market.py: Market.__init__) and the market values its
+# positions with the price row it is handed (`set_market_status(…, price)`), so that row is in USD.  An account quoted in another token Q
+# (`Broker._check_quote_token` admits every stable coin) with 1 USD = u Q has the account prices P(t) = feed(t)·u, P(USD) = u, P(Q) = 1.
+# Independent valuation: every holding at the ACCOUNT's price of its token — wallet(t)·P(t) + Σ supplies(t)·idx·P(t) − Σ debts(t)·idx·P(t).
+OTHER_QUOTES = ["USDC", "DAI", "USDT", "FDUSD"]
+USD_IN_QUOTE = ["0.97", "1.03", "2000", "0.000625", "1.0000001", "1"]
+
+
+def pick_acct_quote(rng, env):
+    """(Q, u): Q a stable coin; when the market's feed prices Q itself, 1 USD = 1/feed(Q) Q (so that P(Q) = 1), otherwise u is free"""
+    q = rng.choice(OTHER_QUOTES)
+    if q in env["price"]:
+        return [q, None]
+    return [q, rng.choice(USD_IN_QUOTE)]
+
+
+def check_other_quote(ctx: Ctx, m, b, env, state, bal, case, what, acct_quote):
+    q, u = acct_quote
+    if any(k.name not in env["price"] for k, _ in b._assets.items()):
+        return
+    if u is None:
+        if D(env["price"][q]) <= 0:
+            return
+        u = D(1) / D(env["price"][q])
+        held = "held-token"
+    else:
+        u = D(u)
+        held = "foreign-token"
+    prices = {t: D(env["price"][t]) * u for t in env["price"]}          # the account's price row, 35-digit Decimals like the real one
+    prices[q] = D(1)                                                    # the quote token itself (feed(Q)·u is 1 up to the 35th digit)
+    prices["USD"] = u
+    uclass = "u=1" if u == 1 else ("u<1" if u < 1 else "u>1")
+    saved = b.quote_token
+    b.quote_token = A.token(q)
+    try:
+        acct = b.get_account_status(prices)
+    except Exception as e:  # noqa: BLE001
+        ctx.violate(f"aave.account.quote-conversion:raises:{type(e).__name__}", f"{what}: account quoted in {q}, 1 USD = {u} {q}: get_account_status raised "
+                    f"{type(e).__name__}({str(e)[:80]})", case)
+        return
+    finally:
+        b.quote_token = saved
+    ctx.case(f"aave:account:other-quote:{held}:{uclass}:s{min(len(state['supplies']), 2)}b{min(len(state['borrows']), 2)}")
+    fu = F(u)
+    P = {t: F(p) for t, p in prices.items()}
+    wallet = sum((F(a.balance) * P[k.name] for k, a in b._assets.items()), F(0))
+    sup = sum((F(D(v["base"])) * F(env["status"][t]["liqIdx"]) * P[t] for t, v in state["supplies"]), F(0))
+    bor = sum((F(D(v["base"])) * F(env["status"][t]["varIdx"]) * P[t] for t, v in state["borrows"]), F(0))
+    want = wallet + sup - bor
+    # the market quantises its two totals to 1e-4 USD (two half-quanta, worth u each in Q); P(t) is feed(t)·u rounded to 35 digits
+    tol = 2 * HALF * fu + SLACK * (abs(wallet) + abs(sup) + abs(bor) + 1)
+    if abs(F(acct.net_value) - want) > tol:
+        ctx.violate("aave.account.quote-conversion", f"{what}: account quoted in {q} with 1 USD = {u} {q} (market quoted in {m.quote_token.name}): "
+                    f"get_account_status().net_value = {acct.net_value}, every holding at the account's prices is worth {float(want):.12g} "
+                    f"(wallet {float(wallet):.10g}, supplies {float(sup):.10g}, debts {float(bor):.10g}; market reports {bal.net_value})", case)
+    # and against the figure the market itself reports: wallet + reported net value × P(USD), exactly (35-digit slack)
+    want2 = wallet + F(bal.net_value) * fu
+    if abs(F(acct.net_value) - want2) > SLACK * (abs(wallet) + abs(F(bal.net_value)) * fu + 1):
+        ctx.violate("aave.account.quote-conversion:reported", f"{what}: account quoted in {q}, 1 USD = {u} {q}: account net value {acct.net_value} vs wallet "
+                    f"{float(wallet):.10g} + market {bal.net_value} x {u}", case)
+
+
+def run_sequence(ctx: Ctx, rng, nsteps, reqs, meta, exact_env, qrng=None):
     env = A.gen_env(rng, exact=exact_env)
     m, b, actions = A.new_market(env, A.initial_wallet(rng, env))
     for i in range(nsteps):
@@ -93,7 +165,10 @@ def run_sequence(ctx: Ctx, rng, nsteps, reqs, meta, exact_env):
             env = env_next
         st = A.dump_state(m, b, actions, len(actions))
         case = {"env": A.env_json(env), "state": st, "op": {"kind": "read", "view": "marketBalance"}, "after": op}
-        check_balance(ctx, m, b, env, st, case, f"after {op} ({outcome})")
+        acct_quote = pick_acct_quote(qrng, env) if qrng is not None else None
+        if acct_quote is not None:
+            case["acct_quote"] = acct_quote
+        check_balance(ctx, m, b, env, st, case, f"after {op} ({outcome})", acct_quote)
         # correspondence: the model's get_market_balance on the same raw state and caches
         c = A.clone_market(m, True)
         obs = A.observe_view(c, "marketBalance")
@@ -107,8 +182,9 @@ def run(ctx: Ctx):
     rng = ctx.rng
     nseq = ctx.scale(60, 2500)
     reqs, meta = [], []
+    qrng = random.Random(f"c01_aave.acct_quote:{ctx.seed}")     # own stream: the draws of the other parts / generators stay what they were
     for i in range(nseq):
-        run_sequence(ctx, rng, rng.randint(6, 22), reqs, meta, exact_env=(i % 3 == 0))
+        run_sequence(ctx, rng, rng.randint(6, 22), reqs, meta, exact_env=(i % 3 == 0), qrng=qrng)
     if ctx.driver_ok:
         outs = driver_json(reqs, exe=A.EXE)
         for (case, obs, tag), o in zip(meta, outs):
@@ -129,7 +205,7 @@ def replay(ctx: Ctx, case) -> bool:
     m, b, actions = A.new_market(env)
     A.load_state(m, b, case["state"])
     sub = Ctx(ctx.prop, ctx.tier, ctx.seed, False)
-    check_balance(sub, m, b, env, case["state"], case, "replay")
+    check_balance(sub, m, b, env, case["state"], case, "replay", case.get("acct_quote"))
     for v in sub.violations:
         print("  ", v["key"], v["what"])
     return not sub.violations
